@@ -1,7 +1,163 @@
 import Driver.Common
+import Log4rsModel.EnvExpand.Spec
+import Log4rsModel.Roller.Model
+/-
+C19 driver. Case lines (after the id):
+  hook    <env> <path>                          observation  ok:<expanded> | PANIC
+  file    <env> <path>                          observation  created:<sorted list of files> | err | PANIC
+  rolling <env> <path>                          (same)
+  roller  <env> <pattern> <base> <count> <rolls>  observation  files:<path>=<k>,… | err | PANIC
+<env> = `~` or `,`-joined entries `<name>;<value>` (strings hex-encoded as everywhere).
+Paths of the three call-site kinds are relative to a fresh scratch directory the harness `cd`s into.
+-/
 namespace Driver.C19
-open Driver
+open Log4rs.Proto Log4rs.EnvExpand Log4rs Driver
 
-def handle : Handler := fun _ _ => badCase "unimplemented"
+/-- Flip to `true` after the `fix:` commit (single-pass expansion): the model becomes `expandFixed`. -/
+def useFixed : Bool := true
+
+/-- Non-ASCII sample characters of the generator with their `char::is_alphanumeric` value; the
+harness asserts at start-up that Rust classifies every one of them as listed here. -/
+def sampleTable : List (Nat × Bool) :=
+  [ (0xE9, true), (0xDF, true), (0x416, true), (0x4E2D, true), (0x1D4B3, true),
+    (0x663, true), (0xB2, true), (0xBD, true),
+    (0x20AC, false), (0x2014, false), (0xA0, false), (0x1F600, false), (0x301, false) ]
+
+def alnum (c : Char) : Bool :=
+  if c.toNat < 128 then asciiAlnum c
+  else match sampleTable.find? (fun e => e.1 = c.toNat) with
+    | some (_, b) => b
+    | none => false
+
+/-- every character is ASCII or one of the classified samples -/
+def known (s : Text) : Bool :=
+  s.all (fun c => c.toNat < 128 || sampleTable.any (fun e => e.1 = c.toNat))
+
+def decEnv (s : String) : Option Env :=
+  mapM? (fun e => match splitOnChar ';' e with
+    | [k, v] => match decStr k, decStr v with
+      | some k, some v => some (k, v)
+      | _, _ => none
+    | _ => none) (decList ',' s)
+
+def modelExpand (env : Env) (p : Text) : Outcome Unit Text := appenderPath alnum env useFixed p
+
+def renderOut : Outcome Unit Text → String
+  | .ok t => "ok:" ++ encStr t
+  | .err _ => "err"
+  | .panic _ => "PANIC"
+
+def hasSub (pat s : Text) : Bool :=
+  match s with
+  | [] => false
+  | c :: rest => Log4rs.Str.isPrefix pat (c :: rest) || hasSub pat rest
+
+/-- number of `$ENV{` occurrences whose reference is well formed / set / … -/
+structure Census where
+  occ : Nat := 0
+  setRefs : List Text := []
+  unset : Nat := 0
+  malformed : Nat := 0
+
+def census (env : Env) : Text → Census
+  | [] => {}
+  | c :: rest =>
+    let r := census env rest
+    if Log4rs.Str.isPrefix envPrefix (c :: rest) then
+      match refAt alnum (rest.drop 4) with
+      | some n =>
+        match lookup env n with
+        | some _ => { r with occ := r.occ + 1, setRefs := n :: r.setRefs }
+        | none => { r with occ := r.occ + 1, unset := r.unset + 1 }
+      | none => { r with occ := r.occ + 1, malformed := r.malformed + 1 }
+    else r
+
+def tagsOf (kind : String) (env : Env) (p : Text) (constructs : Bool) : List String :=
+  let cs := census env p
+  let t := [kind]
+  let t := if cs.setRefs.isEmpty then t else t ++ ["subst"]
+  let t := if cs.unset > 0 then t ++ ["unset-ref"] else t
+  let t := if cs.malformed > 0 then t ++ ["malformed"] else t
+  let t := if cs.setRefs.length > cs.setRefs.eraseDups.length then t ++ ["repeated-ref"] else t
+  let t := if cs.setRefs.any (fun n => n.any (fun c => c.toNat ≥ 128)) then t ++ ["multibyte-name"] else t
+  let t := if p.any (fun c => c.toNat ≥ 128) then t ++ ["non-ascii"] else t
+  let t := if hasSub ['$', '$'] p || (p.filter (· = '$')).length > cs.occ then t ++ ["stray-dollar"] else t
+  let t := if env.any (fun e => e.2.isEmpty) && !cs.setRefs.isEmpty then t ++ ["empty-value"] else t
+  let t := if junctionFree alnum env p then t ++ ["junction-free"] else t ++ ["junction"]
+  let t := if constructs then t ++ ["constructs-reference"] else t
+  if p.all (· ≠ '$') then t ++ ["trivial"] else t
+
+def failSig (constructs : Bool) : String :=
+  if constructs then "C19/substitution-constructs-reference" else "C19/expansion-differs-from-single-pass"
+
+/-- file-system friendly relative path: non-empty components, none of them `.` or `..`, no NUL -/
+def nicePath (p : Text) : Bool :=
+  let comps := Log4rs.Str.splitOn ['/'] p
+  !p.isEmpty && comps.all (fun c => !c.isEmpty && c ≠ ['.'] && c ≠ ['.', '.'] && c.all (· ≠ Char.ofNat 0)
+    && utf8Len c ≤ 200)
+
+def renderDisk (d : Roller.Disk) : String :=
+  let entries := d.files.map (fun e => encStr e.1 ++ "=" ++ ",".intercalate (e.2.map toString))
+  "files:" ++ encList "," (entries.toArray.qsort (· < ·)).toList
+
+def curLog : Text := "cur.log".toList
+
+/-- `rolls` times: write the roll number into `cur.log`, then `FixedWindowRoller::roll` -/
+def runRolls (name : Nat → Text) (base count : Nat) : Nat → Nat → Roller.Disk → Option Roller.Disk
+  | 0, _, d => some d
+  | r + 1, k, d =>
+    let d := d.set curLog [k]
+    match (Roller.fixedWindowRoll { nameOf := name, base, count } curLog (fun _ => false) d).1 with
+    | .ok d' => runRolls name base count r (k + 1) d'
+    | .error _ => none
+
+def outText : Outcome Unit Text → Option Text
+  | .ok t => some t
+  | _ => none
+
+def handle : Handler := fun cas obs =>
+  match cas, obs with
+  | [kind, envS, pathS], [implObs] =>
+    match decEnv envS, decStr pathS with
+    | some env, some p =>
+      if !(known p && env.all (fun e => known e.1 && known e.2)) then badCase "character outside the classified samples" else
+      let m := modelExpand env p
+      let s := specExpand alnum env p
+      let constructs := expand alnum env p ≠ .ok s
+      let tags := tagsOf kind env p constructs
+      if kind = "hook" then
+        let want := "ok:" ++ encStr s
+        { model := renderOut m,
+          spec := if implObs = want then "ok" else "FAIL:expansion expected " ++ want ++ ";sig=" ++ failSig constructs,
+          tags }
+      else if kind = "file" || kind = "rolling" then
+        if !(nicePath s && (outText m).all nicePath) then badCase "path not file-system friendly" else
+        let want := "created:" ++ encStr s
+        { model := match m with
+            | .ok t => "created:" ++ encStr t
+            | _ => "PANIC",
+          spec := if implObs = want then "ok" else "FAIL:file location expected " ++ want ++ ";sig=" ++ failSig constructs,
+          tags }
+      else badCase "kind"
+    | _, _ => badCase "decode"
+  | ["roller", envS, patS, baseS, countS, rollsS], [implObs] =>
+    match decEnv envS, decStr patS, decNat baseS, decNat countS, decNat rollsS with
+    | some env, some pat, some base, some count, some rolls =>
+      if !(known pat && env.all (fun e => known e.1 && known e.2)) then badCase "character outside the classified samples" else
+      let idxs := (List.range (count + 1)).map (· + base)
+      let mName := fun i => (outText (archivePath alnum env useFixed pat i)).getD []
+      let sName := fun i => specArchive alnum env pat i
+      if !(idxs.all (fun i => nicePath (mName i) && nicePath (sName i))) then badCase "path not file-system friendly" else
+      let constructs := idxs.any (fun i => archivePath alnum env false pat i ≠ .ok (sName i))
+      let tags := tagsOf "roller" env (replaceAll ['{', '}'] (Log4rs.Str.decimal base) pat) constructs
+      match runRolls mName base count rolls 0 Roller.Disk.empty, runRolls sName base count rolls 0 Roller.Disk.empty with
+      | some dm, some ds =>
+        let want := renderDisk ds
+        { model := renderDisk dm,
+          spec := if implObs = want then "ok" else "FAIL:archive locations expected " ++ want ++ ";sig=" ++ failSig constructs,
+          tags }
+      | _, _ => badCase "roll"
+    | _, _, _, _, _ => badCase "decode"
+  | _, _ => badCase "arity"
 
 end Driver.C19
